@@ -355,7 +355,7 @@ def run(tier="quick", seed=0, repo="/repo"):
                 k = len(cps) + 1
                 for si, s in enumerate(seeds):
                     # quick: rotate the argument form over (list, seed); thorough: all forms on seed 0/1, rotate on the others
-                    use = forms if (not quick and s < 2) else [forms[(ci + si) % len(forms)]]
+                    use = forms if ((not quick and s < 2) or (n <= 3 and si == 0)) else [forms[(ci + si) % len(forms)]]
                     for form in use:
                         m, v, arr = mean_var(k, p, form)
                         do({"fn": "generate_changing_data", "form": form, "as_array": arr,
@@ -400,7 +400,7 @@ def run(tier="quick", seed=0, repo="/repo"):
             for ai, an in enumerate(disjoint_interval_lists(n)):
                 k = len(an)
                 for si, s in enumerate(seeds):
-                    use = forms if (not quick and s < 2) else [forms[(ai + si) % len(forms)]]
+                    use = forms if ((not quick and s < 2) or (n <= 3 and si == 0)) else [forms[(ai + si) % len(forms)]]
                     for form in use:
                         m, v, arr = mean_var(k, p, form)
                         order = an if (si % 2 == 0 or k == 1) else an[::-1]
